@@ -1313,7 +1313,8 @@ class Stage:
     @property
     def _transcribed(self):
         if not self.is_transcribed:
-            self.master._transcribe()
+            # Go through the master's property: it transcribes a deep copy, never the declared tree
+            self.master._transcribed
         if self._is_original:
             return self._augmented 
         else:
